@@ -213,6 +213,9 @@ func genSizeCases(r *common.Rand, n int) {
 		}
 		if r.Chance(6) { // many identical data outputs across the varint boundary
 			o := genOut(r, 1)
+			if len(o.Script) > 80 { // keep the 252..254-fold repetition small
+				o.Script = common.Hex(feegen.Data(r.Intn(2), r.Bytes(r.Intn(4))))
+			}
 			s.Outs = nil
 			cnt := r.Pick([]int{252, 253, 254})
 			for i := 0; i < cnt; i++ {
